@@ -811,3 +811,10 @@ Example replacement_rule_chain :
   let a := arun (new_arch [0]) [AUpdate [exs 1 2 Exc [0]]; AUpdate [exs 2 10 Clean [0]]; AUpdate [exs 3 5 Exc [0]]] in
   map (fun gs => sid (snd gs)) (covered a) = [3].
 Proof. vm_compute. reflexivity. Qed.
+
+(* h = 1 (target covered) exactly for fitness 0: no positive fitness, however small, maps to h = 1
+   (the implementation clamps 1.0 - normalise(f) below 1.0 for f > 0, fix C13-mio-tiny-fitness-covered) *)
+Theorem hcode_one_iff_zero f : 0 <= f -> (hcode f = HMAX <-> f = 0).
+Proof.
+  intros H. split; [now apply hcode_max|]. intros ->. reflexivity.
+Qed.
